@@ -94,6 +94,11 @@ CLAIMS = {
   'design_ref': 'DESIGN.md section 4 / C16',
   'note': 'Trusted: hand-over point sent[server], abstract asyncio model, static enumeration of task-creation sites (AST). List-valued settings only as BOUNDED stand-ins (0..2 entries, [bounded], not counted). Not decided: liveness of the reconnect, the untracked shares.scan() task, peer-connection tasks cancelled but not awaited by stop(). Four defects found and fixed (d5d7ff0, d56ea2e, 3ce7fe8, 12a76a0).',
  },
+ 'C09': {
+  'text': 'Proof (z3 strings plus an uninterpreted separator-free predicate expanded syntactically). The comprehension of split_remote_path is executed on an ARBITRARY piece of re.split: a piece is kept iff it is a plain component (not "", ".", "..", no separator). Each shipped strategy is executed against the contract of split_remote_path (symbolic number of parts): Default returns a plain name and the unchanged directory, KeepDirectory extends the directory by at most ONE plain component, NumberDuplicate (loop contract over an arbitrary directory listing, set/min/max over a symbolic index set) returns root + " (k)" + ext with k >= 1 not taken, hence a name not in the listing. chain_strategies is proved by a loop invariant (path == D ++ sequence of "/"+plain component, name empty or plain) for an arbitrary list of shipped strategies in any order; the not-exists claim is proved for chains that end with NumberDuplicateStrategy, and SharesManager is shown to install such a chain; calculate_download_path and _prepare_download_path are proved to use exactly that result, keep a resumed path, and create only the directory. The unit tests use ten benign paths and never a ".." component.',
+  'design_ref': 'DESIGN.md section 4 / C09',
+  'note': 'Assumed: POSIX os.path (join/splitext/normpath axioms), re.split pieces contain no separator, the numbered-pattern regex axiom (bounded-checked against CPython re with the PATTERN literal read from the source, not counted as proved), single process file system. One defect fixed (d264f83: ".." kept by split_remote_path). Known findings (3 obligations): chains NOT ending with NumberDuplicateStrategy can choose an existing file (property says any order); two concurrently starting downloads of equally named files get the same local path (check-then-create race across the create_directory await).',
+ },
 }
 
 NA_DEFAULT = 'check not built yet (work in progress; see DESIGN.md section 4 for the planned contracts)'
